@@ -49,6 +49,10 @@ PROPS = {
             "rule": "hostile: ~70 structure-aware mutation kinds (chains: cycle/cross-link/out-of-range/into-free/bad; first clusters; directory loops; "
                     "long-name damage; 20 boot-sector field mutations; truncated devices; random flips) x FAT12/16/32 base images; mount (lazy) + 36 lookups/"
                     "listings + reads per mutant under a call-event work counter and an alarm; volume: chain follower on random garbage tables"},
+    "C14": {"suites": ["mkfs"],
+            "rule": "parameter grid: every row boundary of the three size tables -1/0/+1/+2 sectors, smallest sizes, 6 sizes x 4 sector sizes x 1-3 FATs x media x "
+                    "labels x offsets x {zeroed, previously used} device, FAT32 with 3 FATs near the minimum, sizes that are not sector multiples, the "
+                    "capacity counter-examples found by the proof; sparse device up to 2 GiB"},
     "C15": {"suites": ["names"],
             "rule": "legal names: every length (quick: all 13-boundaries +-1 and 1..12, 127..129, 254, 255; thorough: 1..255), spaces, dots, case mixes, "
                     "non-OEM and non-BMP characters, alias-collision families; x code pages x preserve_case; live and after remount"},
@@ -125,6 +129,11 @@ MANIFEST_TEXT = {
             "note": _NOTE + "'Memory without bound' is covered only through the bound on the follower's yield; CPython recursion limits are not modelled (eager "
                     "loading is outside the property: default lazy loading).",
             "technique": "Lean 4 termination/totality proof over arbitrary inputs + structure-aware mutation of images"},
+    "C14": {"text": "Theorems over the translated mkfs assignments and extracted tables: for every size, table row, 1-3 FATs, sector size 512-4096 the FAT holds "
+                    "an entry for every cluster (FAT12/16/32: 204 omega cases, each for all sizes); the volume fits the requested size; table rows are legal. "
+                    "Signatures, FSInfo/backup, label, reserved entries, emptiness, type and usability judged on real formatted devices by the independent checker.",
+            "note": _NOTE + "Float use in mkfs (math.ceil(a / b)) is exact below 2^52 (translator assumption).",
+            "technique": "Lean 4 arithmetic proof (omega, unbounded size) over translated code + independent format checker"},
     "C15": {"text": "Theorems: long-name round trip for every length; created entry found and earlier entries unchanged (scan∘serialise = id); alias conform, fresh. "
                     "Naming decisions of create/makedir compared with Model.Names.newName; real create/exists/listdir/remount oracle over legal names.",
             "note": _NOTE + "CharEnv (upper/encode/decode/isspace) is supplied by CPython per name. Known findings D2 (lead byte 0xE5), D26 (preserve_case=False lookup).",
